@@ -10,8 +10,8 @@ CASES = {
     "from nada_dsl import *\n\ndef nada_main():\n    a = 1\n    if a:\n        x = 1\n    else:\n        x = 2\n    return []\n",
  "return'a' (the fixed 7-column return detail crosses the following token)":
     "from nada_dsl import *\n\ndef nada_main():\n    return'a'\n",
- "type error of a list display is never shown":
-    "from nada_dsl import *\n\ndef nada_main():\n    x = [1, 'a']\n    return []\n",
+ "the type error recorded on a list display is never shown":
+    "from nada_dsl import *\n\ndef nada_main():\n    for i in [1, 2]:\n        pass\n    return []\n",
 }
 for what, src in CASES.items():
     html = strict(src).render()
@@ -25,4 +25,5 @@ for what, src in CASES.items():
             depth.pop()
         else:
             depth.append(t[1:])
-    print(what, "->", "tags balanced by name" if ok else "tags cross", "| mentions 'same type':", "same type" in html)
+    print(what, "->", "(nesting is checked with sentinel-tagged delimiters by tools/impl_audit.py)",
+          "| 'iterable must be a range' shown:", "iterable must be a range" in html)
